@@ -283,6 +283,12 @@ func (c *compiled) body(n *Node, ctx *common.Address, level int, chainID *big.In
 			a.PushBytes(probeAddr(it.A).Bytes()).Op(opEXTCODEHASH).Push(it.B).Op(opSSTORE)
 		case "child":
 			ch := it.Child
+			lNoCall := -1
+			if !c.noGuards { // variant selector: bit ID of TIMESTAMP set => the call site is not executed
+				lNoCall = a.NewLabel()
+				envBit(a, opTIMESTAMP, ch.ID)
+				a.PushLabel(lNoCall).Op(opJUMPI)
+			}
 			switch ch.Kind {
 			case kCALL, kCALLCODE, kDELEGATE, kSTATIC:
 				addr := nodeAddr(ch.ID)
@@ -353,6 +359,9 @@ func (c *compiled) body(n *Node, ctx *common.Address, level int, chainID *big.In
 				a.Push(ch.Val).PushBytes(addr.Bytes()).Push(levelGas(level+1)).Op(opPUSH1, 0, opAUTHCALL, opPOP)
 			default:
 				panic("unknown kind " + ch.Kind)
+			}
+			if lNoCall >= 0 {
+				a.Mark(lNoCall)
 			}
 		default:
 			panic("unknown op " + it.Op)
@@ -827,7 +836,7 @@ func genSystematic() []sysCase {
 			for _, act := range actions {
 				for depth := 1; depth <= 2; depth++ {
 					inner := &Node{ID: 10, Kind: k, Items: act.Items(20), Ben: 2}
-					if k == kCALL || k == kCALLCODE {
+					if k == kCALL || k == kCALLCODE || isCreateKind(k) || k == kAUTHCALL {
 						inner.Val = 1
 					}
 					var top Item
